@@ -29,7 +29,7 @@ SENSE_KEYS = {
     0xD: "VOLUME OVERFLOW", 0xE: "MISCOMPARE", 0xF: "COMPLETED",
 }
 
-# A few dozen well-known T10 ASC/ASCQ assignments (asc-num.txt), (asc, ascq) -> text
+# About 150 well-known T10 ASC/ASCQ assignments (asc-num.txt), (asc, ascq) -> text
 ASC_TEXT = {
     (0x00, 0x00): "NO ADDITIONAL SENSE INFORMATION",
     (0x00, 0x01): "FILEMARK DETECTED",
@@ -72,6 +72,118 @@ ASC_TEXT = {
     (0x53, 0x02): "MEDIUM REMOVAL PREVENTED",
     (0x55, 0x04): "INSUFFICIENT REGISTRATION RESOURCES",
     (0x5D, 0x00): "FAILURE PREDICTION THRESHOLD EXCEEDED",
+    # second batch, also written from the T10 list (asc-num.txt) from memory; one entry of the draft (5Eh/03h) was my error and was dropped
+    (0x00, 0x03): 'SETMARK DETECTED',
+    (0x00, 0x04): 'BEGINNING-OF-PARTITION/MEDIUM DETECTED',
+    (0x00, 0x05): 'END-OF-DATA DETECTED',
+    (0x00, 0x11): 'AUDIO PLAY OPERATION IN PROGRESS',
+    (0x00, 0x16): 'OPERATION IN PROGRESS',
+    (0x00, 0x17): 'CLEANING REQUESTED',
+    (0x00, 0x1D): 'ATA PASS THROUGH INFORMATION AVAILABLE',
+    (0x01, 0x00): 'NO INDEX/SECTOR SIGNAL',
+    (0x04, 0x05): 'LOGICAL UNIT NOT READY, REBUILD IN PROGRESS',
+    (0x04, 0x07): 'LOGICAL UNIT NOT READY, OPERATION IN PROGRESS',
+    (0x04, 0x09): 'LOGICAL UNIT NOT READY, SELF-TEST IN PROGRESS',
+    (0x04, 0x0A): 'LOGICAL UNIT NOT ACCESSIBLE, ASYMMETRIC ACCESS STATE TRANSITION',
+    (0x04, 0x0B): 'LOGICAL UNIT NOT ACCESSIBLE, TARGET PORT IN STANDBY STATE',
+    (0x04, 0x0C): 'LOGICAL UNIT NOT ACCESSIBLE, TARGET PORT IN UNAVAILABLE STATE',
+    (0x04, 0x11): 'LOGICAL UNIT NOT READY, NOTIFY (ENABLE SPINUP) REQUIRED',
+    (0x04, 0x1B): 'LOGICAL UNIT NOT READY, SANITIZE IN PROGRESS',
+    (0x05, 0x00): 'LOGICAL UNIT DOES NOT RESPOND TO SELECTION',
+    (0x08, 0x01): 'LOGICAL UNIT COMMUNICATION TIME-OUT',
+    (0x09, 0x00): 'TRACK FOLLOWING ERROR',
+    (0x0A, 0x00): 'ERROR LOG OVERFLOW',
+    (0x0B, 0x00): 'WARNING',
+    (0x0B, 0x01): 'WARNING - SPECIFIED TEMPERATURE EXCEEDED',
+    (0x0C, 0x02): 'WRITE ERROR - AUTO REALLOCATION FAILED',
+    (0x10, 0x00): 'ID CRC OR ECC ERROR',
+    (0x10, 0x01): 'LOGICAL BLOCK GUARD CHECK FAILED',
+    (0x10, 0x02): 'LOGICAL BLOCK APPLICATION TAG CHECK FAILED',
+    (0x10, 0x03): 'LOGICAL BLOCK REFERENCE TAG CHECK FAILED',
+    (0x11, 0x01): 'READ RETRIES EXHAUSTED',
+    (0x11, 0x04): 'UNRECOVERED READ ERROR - AUTO REALLOCATE FAILED',
+    (0x14, 0x00): 'RECORDED ENTITY NOT FOUND',
+    (0x14, 0x01): 'RECORD NOT FOUND',
+    (0x15, 0x00): 'RANDOM POSITIONING ERROR',
+    (0x17, 0x00): 'RECOVERED DATA WITH NO ERROR CORRECTION APPLIED',
+    (0x18, 0x00): 'RECOVERED DATA WITH ERROR CORRECTION APPLIED',
+    (0x19, 0x00): 'DEFECT LIST ERROR',
+    (0x1B, 0x00): 'SYNCHRONOUS DATA TRANSFER ERROR',
+    (0x1C, 0x00): 'DEFECT LIST NOT FOUND',
+    (0x1E, 0x00): 'RECOVERED ID WITH ECC CORRECTION',
+    (0x20, 0x01): 'ACCESS DENIED - INITIATOR PENDING-ENROLLED',
+    (0x21, 0x02): 'INVALID ADDRESS FOR WRITE',
+    (0x22, 0x00): 'ILLEGAL FUNCTION',
+    (0x24, 0x01): 'CDB DECRYPTION ERROR',
+    (0x26, 0x01): 'PARAMETER NOT SUPPORTED',
+    (0x26, 0x02): 'PARAMETER VALUE INVALID',
+    (0x26, 0x04): 'INVALID RELEASE OF PERSISTENT RESERVATION',
+    (0x27, 0x01): 'HARDWARE WRITE PROTECTED',
+    (0x27, 0x02): 'LOGICAL UNIT SOFTWARE WRITE PROTECTED',
+    (0x28, 0x01): 'IMPORT OR EXPORT ELEMENT ACCESSED',
+    (0x29, 0x01): 'POWER ON OCCURRED',
+    (0x29, 0x02): 'SCSI BUS RESET OCCURRED',
+    (0x29, 0x03): 'BUS DEVICE RESET FUNCTION OCCURRED',
+    (0x29, 0x04): 'DEVICE INTERNAL RESET',
+    (0x29, 0x07): 'I_T NEXUS LOSS OCCURRED',
+    (0x2A, 0x00): 'PARAMETERS CHANGED',
+    (0x2A, 0x02): 'LOG PARAMETERS CHANGED',
+    (0x2A, 0x03): 'RESERVATIONS PREEMPTED',
+    (0x2A, 0x04): 'RESERVATIONS RELEASED',
+    (0x2A, 0x05): 'REGISTRATIONS PREEMPTED',
+    (0x2A, 0x06): 'ASYMMETRIC ACCESS STATE CHANGED',
+    (0x2B, 0x00): 'COPY CANNOT EXECUTE SINCE HOST CANNOT DISCONNECT',
+    (0x2E, 0x00): 'INSUFFICIENT TIME FOR OPERATION',
+    (0x2F, 0x00): 'COMMANDS CLEARED BY ANOTHER INITIATOR',
+    (0x30, 0x01): 'CANNOT READ MEDIUM - UNKNOWN FORMAT',
+    (0x30, 0x02): 'CANNOT READ MEDIUM - INCOMPATIBLE FORMAT',
+    (0x31, 0x01): 'FORMAT COMMAND FAILED',
+    (0x32, 0x00): 'NO DEFECT SPARE LOCATION AVAILABLE',
+    (0x35, 0x00): 'ENCLOSURE SERVICES FAILURE',
+    (0x37, 0x00): 'ROUNDED PARAMETER',
+    (0x38, 0x07): 'THIN PROVISIONING SOFT THRESHOLD REACHED',
+    (0x3A, 0x01): 'MEDIUM NOT PRESENT - TRAY CLOSED',
+    (0x3A, 0x02): 'MEDIUM NOT PRESENT - TRAY OPEN',
+    (0x3B, 0x00): 'SEQUENTIAL POSITIONING ERROR',
+    (0x3B, 0x11): 'MEDIUM MAGAZINE NOT ACCESSIBLE',
+    (0x3D, 0x00): 'INVALID BITS IN IDENTIFY MESSAGE',
+    (0x3E, 0x00): 'LOGICAL UNIT HAS NOT SELF-CONFIGURED YET',
+    (0x3E, 0x01): 'LOGICAL UNIT FAILURE',
+    (0x3E, 0x02): 'TIMEOUT ON LOGICAL UNIT',
+    (0x3F, 0x00): 'TARGET OPERATING CONDITIONS HAVE CHANGED',
+    (0x3F, 0x01): 'MICROCODE HAS BEEN CHANGED',
+    (0x3F, 0x03): 'INQUIRY DATA HAS CHANGED',
+    (0x43, 0x00): 'MESSAGE ERROR',
+    (0x45, 0x00): 'SELECT OR RESELECT FAILURE',
+    (0x46, 0x00): 'UNSUCCESSFUL SOFT RESET',
+    (0x48, 0x00): 'INITIATOR DETECTED ERROR MESSAGE RECEIVED',
+    (0x49, 0x00): 'INVALID MESSAGE ERROR',
+    (0x4A, 0x00): 'COMMAND PHASE ERROR',
+    (0x4C, 0x00): 'LOGICAL UNIT FAILED SELF-CONFIGURATION',
+    (0x4E, 0x00): 'OVERLAPPED COMMANDS ATTEMPTED',
+    (0x53, 0x00): 'MEDIA LOAD OR EJECT FAILED',
+    (0x55, 0x00): 'SYSTEM RESOURCE FAILURE',
+    (0x55, 0x01): 'SYSTEM BUFFER FULL',
+    (0x55, 0x02): 'INSUFFICIENT RESERVATION RESOURCES',
+    (0x55, 0x03): 'INSUFFICIENT RESOURCES',
+    (0x55, 0x0E): 'INSUFFICIENT ZONE RESOURCES',
+    (0x57, 0x00): 'UNABLE TO RECOVER TABLE-OF-CONTENTS',
+    (0x5A, 0x00): 'OPERATOR REQUEST OR STATE CHANGE INPUT',
+    (0x5A, 0x01): 'OPERATOR MEDIUM REMOVAL REQUEST',
+    (0x5B, 0x01): 'THRESHOLD CONDITION MET',
+    (0x5D, 0x10): 'HARDWARE IMPENDING FAILURE GENERAL HARD DRIVE FAILURE',
+    (0x5E, 0x00): 'LOW POWER CONDITION ON',
+    (0x5E, 0x01): 'IDLE CONDITION ACTIVATED BY TIMER',
+    (0x63, 0x00): 'END OF USER AREA ENCOUNTERED ON THIS TRACK',
+    (0x64, 0x00): 'ILLEGAL MODE FOR THIS TRACK',
+    (0x65, 0x00): 'VOLTAGE FAULT',
+    (0x67, 0x0A): 'SET TARGET PORT GROUPS COMMAND FAILED',
+    (0x67, 0x0B): 'ATA DEVICE FEATURE NOT ENABLED',
+    (0x6F, 0x00): 'COPY PROTECTION KEY EXCHANGE FAILURE - AUTHENTICATION FAILURE',
+    (0x72, 0x00): 'SESSION FIXATION ERROR',
+    (0x73, 0x00): 'CD CONTROL ERROR',
+    (0x74, 0x00): 'SECURITY ERROR',
+    (0x74, 0x01): 'UNABLE TO DECRYPT DATA',
 }
 
 
@@ -83,7 +195,7 @@ def fixed(key, asc, ascq, response_code=0x70, valid=0, info=0, length=18,
     buf[1] = 0
     buf[2] = (buf[2] & 0xF0 if filler else 0) | (key & 0x0F)
     buf[3:7] = (info & 0xFFFFFFFF).to_bytes(4, "big")
-    buf[7] = max(0, max(length, 18) - 8) & 0xFF
+    buf[7] = max(0, length - 8) & 0xFF        # ADDITIONAL SENSE LENGTH = n - 7: the bytes that actually follow byte 7
     buf[8:12] = bytes(4)
     buf[12] = asc & 0xFF
     buf[13] = ascq & 0xFF
